@@ -6,5 +6,6 @@ CONSTANTS
   EchoChoices <- EC_one
   ThirdChoices <- TC_none
   Presence <- P_all
+  SkewChoices <- SK_none
 INVARIANT RetryWorks
 CHECK_DEADLOCK TRUE
